@@ -203,14 +203,27 @@ def gen_basic_nd(ctx):
                 idx.append(slice(c(), c(), rng.choice([None, 1, -1, 2, -2, 3, -3])))
         nfull = rng.randint(max(0, r - 1), r) if rng.random() < 0.3 else r
         idx_used = tuple(idx[:nfull])
+        full_idx = idx_used + (slice(None),) * (r - len(idx_used))
+        if rng.random() < 0.35:
+            # an Ellipsis standing for the axes p..q-1 (possibly none), explicit indices before AND after it
+            p_ = rng.randint(0, r)
+            q_ = rng.randint(p_, r)
+            idx_used = tuple(idx[:p_]) + (Ellipsis,) + tuple(idx[q_:])
+            full_idx = tuple(idx[:p_]) + (slice(None),) * (q_ - p_) + tuple(idx[q_:])
         try:
             node = x[idx_used] if idx_used else x[...]
         except Exception:
             continue
         if not hasattr(node, "indices"):
             continue
-        full_idx = idx_used + (slice(None),) * (r - len(idx_used))
         mq, sq = [], []
+        if len(node.indices) != len(full_idx) or any(isinstance(ni, NormalizedSlice) != isinstance(ui, slice)
+                                                      for ni, ui in zip(node.indices, full_idx)):
+            ctx.violation("lower:basic_nd:index-structure",
+                          f"x[{idx_used!r}] on shape {s}: the node's indices {node.indices!r} do not line up with the "
+                          f"written index (expanded: {full_idx!r}); NumPy shape {a[idx_used].shape}, node shape {node.shape}",
+                          {"shape": s, "index": repr(idx_used), "node_indices": repr(node.indices)})
+            continue
         for ni, ui in zip(node.indices, full_idx):
             if isinstance(ni, NormalizedSlice):
                 mq.append(f"(slice {ni.start} {ni.stop} {ni.step})")
